@@ -159,6 +159,9 @@ example :
     Failure toyDec (resp 204 .absent none "") ∧
     outcome toyDec (some (.int 0)) (resp 204 .absent none "") = [.synth (some (.int 0))] ∧
     outcome toyDec (some (.int 1)) (resp 202 .other none "<html>") = [.synth (some (.int 1))] ∧
+    -- error status with a JSON-RPC body for a foreign id: still the synthesised terminal, nothing passed through
+    Failure toyDec (resp 404 .json none "{R}") ∧
+    outcome toyDec (some (.int 7)) (resp 404 .json none "{R}") = [.synth (some (.int 7))] ∧
     -- pass-through: single, batch, SSE with two events in two encodings
     outcome toyDec (some (.int 1)) (resp 200 .json none "{R}") = [.pass ⟨.result, some (.int 1), 10⟩] ∧
     outcome toyDec (some (.int 1)) (resp 200 .json none "B")
